@@ -336,7 +336,7 @@ func main() {
 		webIdlePart(w, r)
 		return
 	}
-	n := vc.Scale(400, 20000)
+	n := vc.Scale(400, 8000)
 	pert := vc.Scale(3, 5)
 	pf := grpcadapter.NewProxyForwarder(grpcadapter.ProxyForwarderOpts{})
 	gf := grpcbridge.NewForwarder()
